@@ -328,19 +328,19 @@ func runC20(c *eng.Ctx) {
 			r3.Bad(f.Key+" loadHook-once", f.Decl.Pos(), fmt.Sprintf("expected exactly one loadHook call site, found %d", len(calls)))
 		} else {
 			call := calls[0]
-			loop, _ := eng.LoopOf(f.Decl.Body, call.Pos()).(*ast.RangeStmt)
-			ok := loop != nil && loop.Value != nil && len(call.Args) == 1 && eng.SelObj(info, call.Args[0]) == eng.SelObj(info, loop.Value)
+			el := elemLoopAt(info, f.Decl.Body, call.Pos())
+			ok := el != nil && !el.Desc && len(call.Args) == 1 && el.IsElem(call.Args[0])
 			src := false
 			sorted := false
 			if ok {
-				pv, _ := eng.SelObj(info, loop.X).(*types.Var)
+				pv, _ := eng.SelObj(info, el.Base).(*types.Var)
 				if pv != nil {
 					for _, e := range eng.AssignedExprs(info, f.Decl.Body, pv) {
 						if isCallTo(info, e, getPaths) {
 							src = true
 						}
 					}
-					head := g.NodeOf(loop.X)
+					head := loopBodyEntryOf(g, el.Stmt)
 					sorted = head != nil && g.OnlyVia(head, func(n *eng.GNode) bool {
 						return len(g.CallsAt(n, func(o types.Object, cl *ast.CallExpr) bool {
 							return (eng.IsPkgFunc(o, "sort", "Strings") || eng.IsPkgFunc(o, "slices", "Sort")) && eng.SelObj(info, cl.Args[0]) == pv
@@ -348,7 +348,7 @@ func runC20(c *eng.Ctx) {
 					}, nil)
 				}
 				// one call per iteration, not inside a nested loop
-				ok = eng.LoopOf(loop.Body, call.Pos()) == nil && loopBodyMustPass(g, loop, func(n *eng.GNode) bool { return n == g.NodeOf(call) })
+				ok = eng.LoopOf(el.Body, call.Pos()) == nil && loopBodyMustPass(g, el.Stmt, func(n *eng.GNode) bool { return n == g.NodeOf(call) })
 			}
 			r3.Check(ok && src, f.Key+" loadHook-per-path", call.Pos(), "loadHook(path) once for every path returned by RecursiveGetExecutablePaths", "hooks are not loaded exactly once for every discovered path")
 			r3.Check(sorted, f.Key+" lexical-order", call.Pos(), "paths sorted before the load loop", "hooks are not loaded in lexical order of their paths")
